@@ -7,6 +7,8 @@ import CogentModel.Proofs.FeatureView
 import CogentModel.Proofs.FeatureOnView
 import CogentModel.Proofs.FeatureStrided
 import CogentModel.Proofs.FeatureCopy
+import CogentModel.Model.FeatureAdd
+import CogentModel.Proofs.FeatureAdd
 import CogentModel.Model.FeatureProject
 import CogentModel.Proofs.FeatureProject
 import CogentModel.Proofs.FeatureHistory
@@ -113,7 +115,7 @@ theorem span_on_view (L s e : Int) (hL : 0 < L) (hse : s < e) :
       (∀ a b, MSpan.span a b ∈ m → 0 ≤ a ∧ a ≤ b ∧ b ≤ L) :=
   clipLocate_exact L s e hL (Int.le_of_lt hse)
 
-example : clipLocate 5 (-2, 9) = .ok [.span 0 5, .lost 4] ∧ clipLocate 5 (3, 9) = .ok [.span 3 5] ∧
+example : clipLocate 5 (-2, 9) = .ok [.span 0 5] ∧ clipLocate 5 (3, 9) = .ok [.span 3 5] ∧
     clipLocate 5 (7, 9) = .ok [] ∧ clipLocate 5 (-1, 0) = .ok [] ∧ clipLocate 5 (5, 8) = .ok [] := by decide
 
 /-- **no_raise_partial_feature** (full strength): `make_feature` returns a feature — never an
@@ -421,6 +423,37 @@ example :
     (match featureOnView s.v false [(5, 8)] with
       | .ok f => getSliceNew id s f == .error .valueError
       | .error _ => false) = true := by
+  decide
+
+/-! ## Features ADDED on a view, and the lost-span bookkeeping (code as of 0c76d24f6 / dea246735) -/
+
+/-- **added_feature_denotes_view_spans.**  `v.add_feature(spans, strand)` on any unit-stride view (forward or
+reverse complemented, sliced, with offset) writes a db record which, asked for again on the same view,
+gives a feature whose real spans are exactly the spans given — `get_slice()` reads `str(v)[a:b]` over them —
+and which is reversed iff the strand given (as seen on the view) is `-`. -/
+theorem added_feature_denotes_view_spans (v : View) (h : UnitView v) (hl : 0 < len v) (hoff : 0 ≤ v.offset)
+    (minus : Bool) (spans : List (Int × Int)) (hs : ViewSpans (len v) spans) :
+    ∃ db dm f, addFeatureRecord v spans minus = .ok (db, dm) ∧ featureOnView v dm db = .ok f ∧
+      sliceIdx f = spans.flatMap (fun sp => seg sp.1 sp.2) ∧ f.reversed = minus := by
+  obtain ⟨db, dm, f, h1, h2, h3, h4⟩ := added_feature_spec v h hl hoff minus spans hs
+  exact ⟨db, dm, f, h1, h2, by rw [sliceIdx_eq, h3], h4⟩
+
+-- `s[3:11].rc()` of a 15-mer: spans (1,3) as seen on the view are stored as plus-strand (8,10), strand flipped
+example : addFeatureRecord { start := -5, stop := -13, step := -1, offset := 0, seqLen := 15 } [(1, 3)] false
+    = .ok ([(8, 10)], true) := by decide
+
+/-- The lost spans of a single-span feature add up: left overhang, retained part, right overhang — once each —
+so `len(feature)` is the feature's length however it overhangs a forward view. -/
+theorem single_span_lost_spans_add_up (L s e : Int) (minus : Bool) (hL : 0 < L) (hse : s < e)
+    (hi : max s 0 < min e L) :
+    makeFeature L false minus [(s, e)] =
+      .ok { spans := (if s < 0 then [MSpan.lost (-s)] else []) ++ [MSpan.span (max s 0) (min e L)] ++
+                     (if e > L then [MSpan.lost (e - L)] else []),
+            reversed := minus } :=
+  single_span_map L s e minus hL hse hi
+
+-- the former finding: feature (2,12) on the view [4:9] is now [-2-, 0:5, -3-]
+example : makeFeature 5 false false [(-2, 8)] = .ok { spans := [.lost 2, .span 0 5, .lost 3], reversed := false } := by
   decide
 
 end CogentModel.C04
